@@ -5,6 +5,7 @@ import Ztr.Model.Shuffle
 import Ztr.Model.Digraph
 import Ztr.Model.Channel
 import Ztr.Model.Suites
+import Ztr.Model.Runner
 /-!
 Line protocol between the Python harness and the executable model: one JSON object per line in,
 one JSON object per line out.  `op` selects the model component.  Unknown or malformed requests are
@@ -179,6 +180,143 @@ def opLayerKept (j : Json) : Except String Json := do
     Ztr.Suites.layerKept m (fun n => dots.getD n false) (fun n => units.getD n false) o resume n)
   return Json.mkObj [("kept", Json.arr (kept.map Json.bool).toArray)]
 
+/-! ### worlds -/
+
+def excOf (j : Json) (k : String) : Except String (Option Ztr.Proto.Exc) := do
+  match j.getObjVal? k with
+  | .ok Json.null => return none
+  | .ok (Json.str "fail") => return some .fail
+  | .ok (Json.str "error") => return some .error
+  | .ok (Json.str "skip") => return some .skip
+  | .ok (Json.str "interrupt") => return some .interrupt
+  | .ok v => throw s!"bad exc {v}"
+  | .error _ => return none
+
+def partOf (j : Json) : Except String Ztr.Proto.Part := do
+  let ws ← (← J.arr! j "writes").toList.mapM (fun (x : Json) => do
+    let a ← x.getArr?
+    if a.size ≠ 2 then throw "write must be [stderr?, token]"
+    return ((← a[0]!.getBool?, ← a[1]!.getNat?) : Bool × Nat))
+  return { writes := ws, exc := ← excOf j "exc" }
+
+def testOf (j : Json) : Except String Ztr.Proto.TestDef := do
+  let id ← J.nat! j "id"
+  let count ← J.nat! j "count"
+  let decoSkip ← J.bool! j "decoSkip"
+  let expectFail ← J.bool! j "expectFail"
+  let setUp ← partOf (← j.getObjVal? "setUp")
+  let subs ← (← J.arr! j "subs").toList.mapM partOf
+  let body ← partOf (← j.getObjVal? "body")
+  let tearDown ← partOf (← j.getObjVal? "tearDown")
+  let cleanups ← (← J.arr! j "cleanups").toList.mapM partOf
+  return { id := id, count := count, decoSkip := decoSkip, expectFail := expectFail, setUp := setUp, subs := subs, body := body, tearDown := tearDown, cleanups := cleanups }
+
+def phaseJson : Ztr.Proto.Phase → Json
+  | .setUp => Json.arr #["setUp"]
+  | .body => Json.arr #["body"]
+  | .sub k => Json.arr #["sub", Json.num (JsonNumber.fromNat k)]
+  | .tearDown => Json.arr #["tearDown"]
+  | .cleanup k => Json.arr #["cleanup", Json.num (JsonNumber.fromNat k)]
+
+def jN (n : Nat) : Json := Json.num (JsonNumber.fromNat n)
+
+def badStr : Ztr.Result.Bad → String
+  | .failure => "failure" | .error => "error" | .unexpectedSuccess => "unexpectedSuccess"
+  | .subFailure => "subFailure" | .subError => "subError"
+
+def evJson : Ztr.Runner.Ev → Json
+  | .setUp l ok => Json.arr #["lsu", jN l, Json.bool ok]
+  | .tearDown l r => Json.arr #["ltd", jN l, Json.str (match r with | .ok => "ok" | .raised => "raise" | .notImpl => "notimpl")]
+  | .header l => Json.arr #["header", jN l]
+  | .summary a b c d => Json.arr #["summary", jN a, jN b, jN c, jN d]
+  | .spawn l n => Json.arr #["spawn", jN l, jN n]
+  | .test (.hookSetUp l o) => Json.arr #["tsu", jN l, Json.bool o]
+  | .test (.hookTearDown l o) => Json.arr #["ttd", jN l, Json.bool o]
+  | .test (.code t ph) => Json.arr #["ph", jN t, phaseJson ph]
+  | .test (.leak t tok) => Json.arr #["leak", jN t, jN tok]
+  | .test (.report t b toks) => Json.arr #["report", jN t, Json.str (badStr b), jNats toks]
+  | .test (.skipped t) => Json.arr #["skipped", jN t]
+  | .test (.passed t) => Json.arr #["passed", jN t]
+  | .test (.tstart t) => Json.arr #["tstart", jN t]
+  | .test (.tend t) => Json.arr #["tend", jN t]
+
+def errJson : Ztr.Runner.Err → Json
+  | .test t => Json.arr #["test", jN t]
+  | .layerSetUp l => Json.arr #["layerSetUp", jN l]
+  | .layerTearDown l => Json.arr #["layerTearDown", jN l]
+  | .child l => Json.arr #["child", jN l]
+
+/-- `world`: one runner process on a test world -/
+def opWorld (j : Json) : Except String Json := do
+  let G ← graphOf j
+  let infos ← (← J.arr! j "info").toList.mapM (fun (x : Json) => do
+    let a ← x.getArr?
+    if a.size ≠ 4 then throw "info must have 4 flags"
+    return ({ hasSetUp := ← a[0]!.getBool?, hasTearDown := ← a[1]!.getBool?, hasTestSetUp := ← a[2]!.getBool?, hasTestTearDown := ← a[3]!.getBool? } : Ztr.Runner.LayerInfo))
+  let ia := infos.toArray
+  let suF ← J.natss! j "setUpRaises"        -- per layer: attempt numbers that raise
+  let sa := suF.toArray
+  -- per layer: list of [attempt, code] with code 1 = raise, 2 = notimpl; attempt 999999 = every attempt
+  let tdF ← (← J.arr! j "tearDownFaults").toList.mapM (fun (x : Json) => do
+    (← x.getArr?).toList.mapM (fun (y : Json) => do
+      let a ← y.getArr?
+      if a.size ≠ 2 then throw "tearDown fault must be [attempt, code]"
+      return ((← a[0]!.getNat?, ← a[1]!.getNat?) : Nat × Nat)))
+  let ta := tdF.toArray
+  let groups ← (← J.arr! j "groups").toList.mapM (fun (x : Json) => do
+    let a ← x.getArr?
+    if a.size ≠ 2 then throw "group must be [layer, tests]"
+    let ts ← (← a[1]!.getArr?).toList.mapM testOf
+    return ((← a[0]!.getNat?, ts) : Nat × List Ztr.Proto.TestDef))
+  let importErrors ← J.nat! j "importErrors"
+  let w : Ztr.Runner.World := {
+    graph := G
+    info := fun l => ia.getD l { hasSetUp := false, hasTearDown := false, hasTestSetUp := false, hasTestTearDown := false }
+    setUpRaises := fun l k => (sa.getD l []).contains k || (sa.getD l []).contains 999999
+    tearDownResult := fun l k =>
+      match (ta.getD l []).find? (fun (p : Nat × Nat) => p.1 == k || p.1 == 999999) with
+      | some (_, 1) => .raised
+      | some (_, 2) => .notImpl
+      | _ => .ok
+    groups := groups
+    importErrors := importErrors }
+  let repeat_ ← J.nat! j "repeat"
+  let stopOnError ← J.bool! j "stopOnError"
+  let buffer ← J.bool! j "buffer"
+  let processes ← J.nat! j "processes"
+  let resume ← (do
+    match j.getObjVal? "resume" with
+    | .ok Json.null => return none
+    | .ok v =>
+      let a ← v.getArr?
+      if a.size ≠ 2 then throw "resume must be [layer, number]"
+      return some ((← a[0]!.getNat?, ← a[1]!.getNat?) : Nat × Nat)
+    | .error _ => return none : Except String (Option (Nat × Nat)))
+  let childBad ← J.nats! j "childBad"
+  let o : Ztr.Runner.Opts := { repeat_ := repeat_, stopOnError := stopOnError, buffer := buffer, processes := processes, resume := resume }
+  let r := Ztr.Runner.runProcess w o (fun l => childBad.contains l)
+  return Json.mkObj [
+    ("trace", Json.arr (r.trace.map evJson).toArray),
+    ("ran", jN r.ran), ("failures", jNats r.failures),
+    ("errors", Json.arr (r.errors.map errJson).toArray),
+    ("skipped", jN r.skipped), ("failed", Json.bool r.failed),
+    ("aborted", Json.bool r.aborted), ("interrupted", Json.bool r.interrupted),
+    ("leftover", jNats r.leftover)]
+
+/-- `proto`: the unittest call sequence of one test script -/
+def opProto (j : Json) : Except String Json := do
+  let t ← testOf j
+  let ops := Ztr.Proto.run t
+  let opJson : Ztr.Proto.Op → Json := fun op => match op with
+    | .startTest => "startTest" | .stopTest => "stopTest"
+    | .code ph _ => phaseJson ph
+    | .addSuccess => "addSuccess" | .addFailure => "addFailure" | .addError => "addError" | .addSkip => "addSkip"
+    | .addSubTest none => "addSubTest:ok" | .addSubTest (some .fail) => "addSubTest:fail"
+    | .addSubTest (some _) => "addSubTest:error" | .addSubSkip => "addSubSkip"
+    | .addExpectedFailure => "addExpectedFailure" | .addUnexpectedSuccess => "addUnexpectedSuccess"
+    | .raiseInterrupt => "KeyboardInterrupt"
+  return Json.mkObj [("ops", Json.arr (ops.map opJson).toArray)]
+
 def dispatch (j : Json) : Except String Json := do
   let op ← J.str! j "op"
   match op with
@@ -186,6 +324,8 @@ def dispatch (j : Json) : Except String Json := do
   | "layers" => opLayers j
   | "shuffle" => opShuffle j
   | "sccs" => opSccs j
+  | "world" => opWorld j
+  | "proto" => opProto j
   | "suites" => opSuites j
   | "normalize" => opNormalize j
   | "layer_kept" => opLayerKept j
